@@ -54,6 +54,14 @@ type mdCase struct {
 	Ts0      uint32   `json:"ts0"`
 	Pkts     []mdPkt  `json:"pkts"`
 	Data     uint64   `json:"data_seed"`
+	// Reneg (C23): afterwards the sender replaces its track (1: same track id, another stream id;
+	// 2: another track id and stream id), the pair renegotiates (RenegB: the receiving side offers)
+	// and a few more packets are written.
+	// SwitchAt (C26): from this packet on the primary stream uses another payload type the section
+	// negotiated (and its retransmissions that codec's RTX payload type)
+	SwitchAt int  `json:"switch_at,omitempty"`
+	Reneg    int  `json:"reneg,omitempty"`
+	RenegB   bool `json:"reneg_b,omitempty"`
 }
 
 var mdCaps = map[string]RTPCodecCapability{
@@ -110,8 +118,14 @@ func mdGenFor(prop string) func(seed uint64, idx, total int, tier string) any {
 				c.Pkts = append(c.Pkts, mdPkt{PayLen: 1440, TsStep: 3000, AsRTX: true}, mdPkt{PayLen: 20, TsStep: 3000, Settle: true})
 			}
 		}
+		if prop == "C26" && r.Bool(0.3) && len(c.Pkts) >= 4 && int(c.Seq0)+len(c.Pkts)+4 < 65000 {
+			c.SwitchAt = r.Range(2, len(c.Pkts)-1)
+		}
 		if prop == "C23" {
 			c.RichHdr = r.Bool(0.5)
+			if !faulty && r.Bool(0.5) {
+				c.Reneg, c.RenegB = r.Range(1, 2), r.Bool(0.5)
+			}
 		}
 		return c
 	}
@@ -316,6 +330,7 @@ func mdRunFor(prop string) func(t *testing.T, cj []byte, res *vfResult) {
 				ansSDP = a.pc.LocalDescription().SDP
 			}
 			wantPT, rtxPT := -1, -1
+			altPT, altRtxPT := -1, -1
 			wantName := strings.ToLower(strings.SplitN(capab.MimeType, "/", 2)[1])
 			for _, s := range vfParseSDP(ansSDP).Sections {
 				if m, _ := s.Mid(); m != secMid {
@@ -343,6 +358,20 @@ func mdRunFor(prop string) func(t *testing.T, cj []byte, res *vfResult) {
 						fmt.Sscan(fs[0], &rtxPT)
 					}
 				}
+				// another codec of the section that has a retransmission payload type of its own
+				for _, f := range s.Fmts {
+					name := strings.SplitN(rm[f], "/", 2)[0]
+					if altPT >= 0 || name == wantName || name == "rtx" || name == "red" || name == "ulpfec" || name == "flexfec-03" || name == "" {
+						continue
+					}
+					for _, v := range vfAttrVals(s.Attrs, "fmtp") {
+						fs := strings.SplitN(v, " ", 2)
+						if len(fs) == 2 && fs[1] == "apt="+f && altPT < 0 {
+							fmt.Sscan(f, &altPT)
+							fmt.Sscan(fs[0], &altRtxPT)
+						}
+					}
+				}
 			}
 			lines = append(lines, fmt.Sprintf("codec=%s bOffers=%v mid=%s primarySSRC announced=%v pt=%d rtxSSRC=%d rtxPT=%d faulty=%v", c.Codec, c.BOffers, secMid, announced[fmt.Sprint(primarySSRC)], wantPT, rtxSSRC, rtxPT, faulty))
 			// ---- send
@@ -367,6 +396,7 @@ func mdRunFor(prop string) func(t *testing.T, cj []byte, res *vfResult) {
 				pad  int
 				rtx  bool
 				drop bool // too short to carry an OSN: must not be delivered
+				pt   int  // the primary stream's payload type when this packet is sent
 			}
 			var sent []sentPkt
 			rr := vfNewRand(c.Data, "pay")
@@ -384,7 +414,16 @@ func mdRunFor(prop string) func(t *testing.T, cj []byte, res *vfResult) {
 			}
 			for i, p := range pkts {
 				ts += uint32(p.TsStep)
-				sp := sentPkt{seq: seq, ts: ts, mark: p.Marker}
+				sp := sentPkt{seq: seq, ts: ts, mark: p.Marker, pt: wantPT}
+				switched := prop == "C26" && c.SwitchAt > 0 && i >= c.SwitchAt && i < len(c.Pkts) && altPT >= 0 && canRTX
+				if switched {
+					sp.pt = altPT
+					if i == c.SwitchAt {
+						p.AsRTX, p.Settle = false, true // the first packet with the new payload type is an original, and it is read before anything else is sent
+						vfSettle(50 * time.Millisecond) // and everything sent under the old payload type has been received and unwrapped by then
+						res.stat("runs_with_primary_payload_type_switch", 1)
+					}
+				}
 				seq++
 				n := p.PayLen
 				if n < 0 {
@@ -440,6 +479,9 @@ func mdRunFor(prop string) func(t *testing.T, cj []byte, res *vfResult) {
 						b0 |= 0x10
 					}
 					b1 := byte(rtxPT)
+					if switched {
+						b1 = byte(altRtxPT)
+					}
 					if sp.mark {
 						b1 |= 0x80
 					}
@@ -489,6 +531,32 @@ func mdRunFor(prop string) func(t *testing.T, cj []byte, res *vfResult) {
 					}
 					res.stat("rtx_packets_sent", 1)
 					lines = append(lines, fmt.Sprintf("rtx for seq %d: csrc=%d ext=%#x/%d bytes pad=%d payload=%d", sp.seq, len(sp.csrc), sp.extP, len(sp.ext), sp.pad, len(sp.pay)))
+				} else if switched {
+					// an original with the other payload type: put on the wire as a remote sender would
+					var raw bytes.Buffer
+					b1 := byte(altPT)
+					if sp.mark {
+						b1 |= 0x80
+					}
+					raw.Write([]byte{0x80, b1})
+					_ = binary.Write(&raw, binary.BigEndian, sp.seq)
+					_ = binary.Write(&raw, binary.BigEndian, sp.ts)
+					_ = binary.Write(&raw, binary.BigEndian, primarySSRC)
+					raw.Write(sp.pay)
+					if rawCtx == nil {
+						rawCtx, rawErr = mdRawSRTPContext(a.pc.dtlsTransport)
+					}
+					if rawErr != nil {
+						res.Verdict, res.Detail = "error", "raw srtp context: "+rawErr.Error()
+						return
+					}
+					enc, err := rawCtx.EncryptRTP(nil, raw.Bytes(), nil)
+					if err == nil {
+						_, err = a.pc.dtlsTransport.srtpEndpoint.Write(enc)
+					}
+					if err != nil {
+						lines = append(lines, "raw primary write error: "+err.Error())
+					}
 				} else {
 					pk := &rtp.Packet{Header: rtp.Header{Version: 2, Marker: sp.mark, SequenceNumber: sp.seq, Timestamp: sp.ts, SSRC: 12345, PayloadType: 96}, Payload: sp.pay}
 					if c.RichHdr {
@@ -580,8 +648,12 @@ func mdRunFor(prop string) func(t *testing.T, cj []byte, res *vfResult) {
 				if !announced[fmt.Sprint(g.h.SSRC)] || g.h.SSRC != primarySSRC {
 					res.violate("received-ssrc-not-the-announced-one:"+via, fmt.Sprintf("seq %d arrived with SSRC %d; the sender's description announces %v for this track (primary %d)", sp.seq, g.h.SSRC, vfSortedKeys(announced), primarySSRC))
 				}
-				if int(g.h.PayloadType) != wantPT {
-					res.violate("received-payload-type-not-the-negotiated-one:"+via, fmt.Sprintf("seq %d arrived with payload type %d, negotiated %d for %s", sp.seq, g.h.PayloadType, wantPT, c.Codec))
+				if int(g.h.PayloadType) != sp.pt {
+					cls := "received-payload-type-not-the-negotiated-one:" + via
+					if sp.pt != wantPT {
+						cls = "received-payload-type-not-the-primary-streams:" + via + ":after-the-primary-stream-changed-payload-type"
+					}
+					res.violate(cls, fmt.Sprintf("seq %d arrived with payload type %d; the primary stream used %d when it was sent (negotiated %d for %s)", sp.seq, g.h.PayloadType, sp.pt, wantPT, c.Codec))
 				}
 				if !bytes.Equal(g.pay, sp.pay) {
 					res.violate("payload-changed:"+via, fmt.Sprintf("seq %d: %d payload bytes received, %d sent (first difference at %d)", sp.seq, len(g.pay), len(sp.pay), mdFirstDiff(g.pay, sp.pay)))
@@ -613,6 +685,108 @@ func mdRunFor(prop string) func(t *testing.T, cj []byte, res *vfResult) {
 						res.violate("packets-reordered-on-fault-free-network", fmt.Sprintf("seq %d arrived after a later packet", sp.seq))
 					}
 					lastIdx = idx
+				}
+			}
+			if c.Reneg > 0 && !faulty && prop == "C23" {
+				// ---- the sender's description changes: another track on the same sender, renegotiated
+				nid, nstream := "trk-main", "strm-other"
+				if c.Reneg == 2 {
+					nid, nstream = "trk-second", "strm-second"
+				}
+				ntrack, err := NewTrackLocalStaticRTP(capab, nid, nstream)
+				if err == nil {
+					err = sender.ReplaceTrack(ntrack)
+				}
+				off, ans := a, b
+				if c.RenegB {
+					off, ans = b, a
+				}
+				var od, ad SessionDescription
+				if err == nil {
+					od, err = off.pc.CreateOffer(nil)
+				}
+				if err == nil {
+					err = off.pc.SetLocalDescription(od)
+				}
+				if err == nil {
+					err = ans.pc.SetRemoteDescription(*off.pc.LocalDescription())
+				}
+				if err == nil {
+					ad, err = ans.pc.CreateAnswer(nil)
+				}
+				if err == nil {
+					err = ans.pc.SetLocalDescription(ad)
+				}
+				if err == nil {
+					err = off.pc.SetRemoteDescription(*ans.pc.LocalDescription())
+				}
+				if err != nil {
+					res.Verdict, res.Detail = "error", "renegotiation: "+err.Error()
+					return
+				}
+				vfDrain(30*time.Second, a, b)
+				res.stat("runs_with_replaced_track_renegotiated", 1)
+				// what the sender's description says now
+				wantMsid := ""
+				for _, sec := range vfParseSDP(a.pc.LocalDescription().SDP).Sections {
+					if m, _ := sec.Mid(); m == secMid {
+						if v := vfAttrVals(sec.Attrs, "msid"); len(v) == 1 {
+							wantMsid = v[0]
+						}
+					}
+				}
+				mu.Lock()
+				before := len(recv["trk-main"]) + len(recv[nid])
+				if nid == "trk-main" {
+					before = len(recv[nid])
+				}
+				mu.Unlock()
+				var late [][]byte
+				for k := 0; k < 5; k++ {
+					ts += 3000
+					pay := rr.Bytes(40 + k)
+					binary.BigEndian.PutUint32(pay, uint32(0xD0000000)|uint32(k))
+					late = append(late, pay)
+					_ = ntrack.WriteRTP(&rtp.Packet{Header: rtp.Header{Version: 2, SequenceNumber: seq, Timestamp: ts}, Payload: pay})
+					seq++
+					vfSettle(5 * time.Millisecond)
+				}
+				count := func() int {
+					mu.Lock()
+					defer mu.Unlock()
+					if nid == "trk-main" {
+						return len(recv[nid])
+					}
+					return len(recv["trk-main"]) + len(recv[nid])
+				}
+				vfWaitFor(10*time.Second, func() bool { return count() >= before+len(late) })
+				vfSettle(200 * time.Millisecond)
+				if wantMsid != "" && rt.StreamID()+" "+rt.ID() != wantMsid {
+					res.violate("remote-track-identity-differs:after-renegotiation", fmt.Sprintf("the sender's renegotiated description says msid %q for mid %s; the remote track says stream=%q id=%q", wantMsid, secMid, rt.StreamID(), rt.ID()))
+				}
+				mu.Lock()
+				var tail []mdRecv
+				all := append(append([]mdRecv{}, recv["trk-main"]...), recv[nid]...)
+				if nid == "trk-main" {
+					all = append([]mdRecv{}, recv[nid]...)
+				}
+				mu.Unlock()
+				for _, g := range all {
+					if len(g.pay) >= 4 && binary.BigEndian.Uint32(g.pay)&0xF0000000 == 0xD0000000 {
+						tail = append(tail, g)
+					}
+				}
+				if len(tail) < len(late) {
+					res.violate("packet-lost-on-fault-free-network:after-renegotiation", fmt.Sprintf("%d of %d packets written to the replacement track arrived", len(tail), len(late)))
+				}
+				for _, g := range tail {
+					k := int(binary.BigEndian.Uint32(g.pay) & 0xFF)
+					if k >= len(late) || !bytes.Equal(g.pay, late[k]) {
+						res.violate("payload-changed:after-renegotiation", fmt.Sprintf("packet %d of the replacement track: %d bytes received", k, len(g.pay)))
+					}
+					if g.h.SSRC != primarySSRC || int(g.h.PayloadType) != wantPT {
+						res.violate("received-ssrc-or-payload-type-changed:after-renegotiation", fmt.Sprintf("ssrc %d pt %d, want %d / %d", g.h.SSRC, g.h.PayloadType, primarySSRC, wantPT))
+					}
 				}
 			}
 			if !faulty {
